@@ -619,6 +619,15 @@ func normalizeSetField(
 }
 
 func normalizeSetValue(cfg *Config, opts *options, p cfgPath, name string, val value) Error {
+	if leadsThroughReference(cfg, p) {
+		// a parent of name has already been defined as a reference. While the
+		// input is normalized a reference is a value like any other: it is not
+		// evaluated (what it names may not have been added yet, or belong to
+		// the configuration the input gets merged into), and nothing is
+		// stored in the setting it names.
+		return raiseDuplicateKey(cfg, name)
+	}
+
 	old, err := p.GetValue(cfg, opts)
 	if err != nil {
 		if err.Reason() == ErrExpectedObject {
@@ -659,6 +668,33 @@ func normalizeSetValue(cfg *Config, opts *options, p cfgPath, name string, val v
 	default:
 		return raiseDuplicateKey(cfg, name)
 	}
+}
+
+// leadsThroughReference checks if a setting on the way to the one named by p
+// (not the last one) holds a reference or another dynamic value. The walk does
+// not evaluate anything.
+func leadsThroughReference(cfg *Config, p cfgPath) bool {
+	cur := cfg
+	for i := 0; i+1 < len(p.fields); i++ {
+		var next value
+		switch f := p.fields[i].(type) {
+		case namedField:
+			next, _ = cur.fields.get(f.name)
+		case idxField:
+			if arr := cur.fields.array(); f.i >= 0 && f.i < len(arr) {
+				next = arr[f.i]
+			}
+		}
+		switch v := next.(type) {
+		case *cfgDynamic:
+			return true
+		case cfgSub:
+			cur = v.c
+		default:
+			return false
+		}
+	}
+	return false
 }
 
 // indexesPrimitive checks if path p uses an index on a primitive value. Reading
